@@ -42,6 +42,9 @@ RULE = ("DoWhile workflows built by construction: import stage 0-2, 1-4 looped c
         "a reload at 11 / 17 (so k >= 12 is reached in every run). Non-trivial = iteration >= 10 reached, or import stage > 0 together with a loopBinding, or (two "
         "loops) both loops at different iteration counts; distinct = distinct (workflow shape, history).")
 ASSUMPTIONS = [
+    "sub `controller`: documents in which a component outside the loop sits in a stage before the loop's last stage are "
+    "skipped (it would depend on a later stage; found as FinalStageNoFinishedLeafComponents by thorough seed 11 and "
+    "classified as outside the domain, not as a defect)",
     "iterations are instantiated the way Controller._instantiate_next_dowhile_iteration does it (document taken from "
     "get_document_metadata, next number = current iteration + 1, store_flowir_to_disk=True, working directory and "
     "Job created for each new node); the controller/engines themselves are not run",
@@ -425,6 +428,13 @@ def check_controller(case, ctx: Ctx):
     from ..rt import driver as rtdriver
     from .c02 import PatternChooser
     K = min(case["k"], 3)
+    last_loop_stage = case["S"] + max(c["ls"] for c in case["loop"])
+    if any(c["stage"] < last_loop_stage for c in case["cons"]):
+        # an outside consumer placed in a stage before the loop's last stage depends (through the condition component)
+        # on a LATER stage; the sequential stage loop cannot order that (the final stage then has no leaf component).
+        # Such documents are outside this sub-check's domain; the graph-level sub-checks still cover them.
+        ctx.rec.label("controller:skipped:consumer-before-last-loop-stage")
+        return
     run = _Run([case], ctx)
     try:
         lp = run.loops[0]
